@@ -7,6 +7,7 @@ import (
 	"path/filepath"
 	"sort"
 	"strings"
+	"syscall"
 
 	"github.com/restic/restic/internal/backend/mem"
 )
@@ -49,6 +50,9 @@ func streamC20(h *H) {
 		}
 		cli := NewCLI(mem.New())
 		snap := a5Backup(cli, tree)
+		if h.Intn(2) == 0 { // snapshots that contain socket nodes
+			snap, _ = a5GraftSockets(h, cli, snap)
+		}
 		orig := a5Ls(cli, snap)
 		kindOf := map[string]string{}
 		var snapDirs = []string{""}
@@ -69,10 +73,28 @@ func streamC20(h *H) {
 				fl = a5GenFlags(h, paths, true)
 				o := a5GenFlags(h, paths, false)
 				fl.Ex, fl.IEx = o.Ex, o.IEx
+			case r == 2 || r == 3: // a case-insensitive pattern file only: a snapshot path with swapped case
+				p := "/" + h.Pick(paths)
+				if up := strings.ToUpper(p); up != p {
+					p = up
+				} else {
+					p = strings.ToLower(p)
+				}
+				if h.Intn(3) == 0 {
+					p = p[1:] // relative
+				}
+				if r == 2 {
+					fl.IInFile = [][]string{{"# insensitive includes", p}}
+				} else {
+					fl.IExFile = [][]string{{p, ""}}
+				}
 			case r < 11:
 				fl = a5GenFlags(h, paths, true)
 			default:
 				fl = a5GenFlags(h, paths, false)
+			}
+			if h.Intn(3) == 0 { // part of the patterns through --exclude-file / --iinclude-file …
+				fl = fl.ToFiles(h)
 			}
 			del := h.Intn(2) == 0
 			// patterns aimed at stale (non-snapshot) entries of the target
@@ -118,7 +140,12 @@ func streamC20(h *H) {
 				// sometimes older copies of snapshot items of the same kind
 				for _, e := range orig {
 					rel := strings.TrimPrefix(e.Path, "/")
-					if h.Intn(6) != 0 || e.Type == "o" {
+					if e.Type == "s" {
+						// in-place restore: the socket (or whatever bears its name) is already there
+						if h.Intn(3) == 0 {
+							continue
+						}
+					} else if h.Intn(6) != 0 || e.Type == "o" {
 						continue
 					}
 					full := filepath.Join(target, filepath.FromSlash(rel))
@@ -133,6 +160,8 @@ func streamC20(h *H) {
 					}
 					if e.Type == "d" {
 						_ = os.Mkdir(full, 0o755)
+					} else if e.Type == "s" && h.Intn(2) == 0 {
+						_ = syscall.Mknod(full, syscall.S_IFSOCK|0o644, 0)
 					} else {
 						_ = os.WriteFile(full, []byte("previous content"), 0o644)
 					}
@@ -159,11 +188,12 @@ func streamC20(h *H) {
 				}
 			}
 			a5Oracle(h, fl.Raw(), comps)
+			pdir := MkTemp("a5pat-")
 			args := []string{"restore", snap, "--target", target}
 			if del {
 				args = append(args, "--delete")
 			}
-			args = append(args, fl.Args()...)
+			args = append(args, fl.Args(pdir)...)
 			r := cli.Run(args...)
 			switch {
 			case r.Panic != "":
@@ -179,6 +209,7 @@ func streamC20(h *H) {
 			}
 			h.End()
 			_ = os.RemoveAll(target)
+			_ = os.RemoveAll(pdir)
 		}
 	}
 }
